@@ -206,6 +206,10 @@ fn run_once(source: &str, obs: &mut Obs, what: &str) -> Option<RunResult> {
                 let title = e.error.title();
                 // rendering must itself return
                 let rendered = format!("{e}");
+                // the rendered text names a source position: " >>> file:line:col"
+                let located = rendered.contains(" >>> ") && rendered.contains(".tex:")
+                    || rendered.contains("<input from terminal>");
+                let has_trace = has_trace && located;
                 (
                     Some(Err((title, kind_name, has_trace, stack_empty, rendered.len()))),
                     None::<()>,
@@ -258,6 +262,12 @@ fn run_once(source: &str, obs: &mut Obs, what: &str) -> Option<RunResult> {
                     }
                     if kind_name == "failed-precondition" && stack_empty {
                         obs.count("err_failed_precondition_with_empty_stack_trace");
+                        let t: String = title
+                            .chars()
+                            .take_while(|c| !c.is_ascii_digit() && *c != '`')
+                            .take(48)
+                            .collect();
+                        obs.count(&format!("unlocated_failed_precondition:{t}"));
                     }
                     if rendered_len == 0 {
                         obs.violation(
